@@ -339,3 +339,135 @@ theorem getA_fourAssigns_zero (es : List (Helpers.Idx × Num)) (p : Helpers.Idx)
   exact h e' he' hw
 
 end Iodata.FmtR.GLog
+
+namespace Iodata.FmtR.GLog
+open Iodata.Chars Iodata.Decimal Iodata.Fmt Iodata.FmtR
+
+/-! ### whole files -/
+
+/-- the marker strings of the source are the headings Gaussian prints -/
+def MarkersOK (L : Layout) : Prop :=
+  L.nbasisPrefix = [' ',' ',' ',' ','N','B','a','s','i','s',' ','='] ∧ L.nbasisSl = (12, 18) ∧
+  L.termPrefix = [' ','N','o','r','m','a','l',' ','t','e','r','m','i','n','a','t','i','o','n',' ','o','f',' ','G','a','u','s','s','i','a','n'] ∧
+  L.olp = [' ','*','*','*',' ','O','v','e','r','l','a','p',' ','*','*','*'] ∧
+  L.kin = [' ','*','*','*',' ','K','i','n','e','t','i','c',' ','E','n','e','r','g','y',' ','*','*','*'] ∧
+  L.na = [' ','*','*','*','*','*',' ','P','o','t','e','n','t','i','a','l',' ','E','n','e','r','g','y',' ','*','*','*','*','*'] ∧
+  L.er = [' ','*','*','*',' ','D','u','m','p','i','n','g',' ','T','w','o','-','E','l','e','c','t','r','o','n',' ','i','n','t','e','g','r','a','l','s',' ','*','*','*']
+
+instance (L : Layout) : Decidable (MarkersOK L) := by unfold MarkersOK; infer_instance
+
+/-- a line that is none of the section headings nor the termination line -/
+def plainLine (L : Layout) (l : Str) : Prop :=
+  startsWith L.termPrefix l = false ∧ startsWith L.olp l = false ∧ startsWith L.kin l = false ∧
+  startsWith L.na l = false ∧ startsWith L.er l = false
+
+def SecOK (L : Layout) (S : Spec) (n : Nat) : Sec → Prop
+  | .two k f => k < 3 ∧ ∀ r c, FitsTwo S (f r c)
+  | .four pre es term => pre.length = 6 ∧ startsWith [' ','I','='] term = false ∧
+      ∀ e ∈ es, FitsFour S e ∧ e.1.1 < n ∧ e.1.2.1 < n ∧ e.1.2.2.1 < n ∧ e.1.2.2.2 < n
+  | .other l => plainLine L l
+
+/-- what a section stores -/
+def applySec (S : Spec) (n : Nat) (o : Obj) : Sec → Obj
+  | .two 0 f => { o with olp := some (allAssigns S f n) }
+  | .two 1 f => { o with kin := some (allAssigns S f n) }
+  | .two _ f => { o with na := some (allAssigns S f n) }
+  | .four _ es _ => { o with er := some (fourAssigns es) }
+  | .other _ => o
+
+theorem sec_lines_pos (S : Spec) (n : Nat) (s : Sec) : 0 < (Sec.lines S n s).length := by
+  cases s <;> simp [Sec.lines]
+
+theorem mainGo_spec (L : Layout) (S : Spec) (hL : LayoutOK L) (hM : MarkersOK L) (hP : S.perBlock = 5) (hw : S.idxW = 3)
+    (n : Nat) (post : List Str) : ∀ (secs : List Sec) (fuel : Nat) (o : Obj), (∀ s ∈ secs, SecOK L S n s) →
+    (secs.flatMap (Sec.lines S n)).length < fuel →
+    mainGo L n fuel (secs.flatMap (Sec.lines S n) ++ termLine :: post) o = .ok (secs.foldl (applySec S n) o) := by
+  obtain ⟨_, _, ht, ho, hk, hn, he⟩ := hM
+  have t_term : startsWith L.termPrefix termLine = true := by rw [ht]; decide
+  have f0 : startsWith L.termPrefix (markerLine 0) = false ∧ startsWith L.olp (markerLine 0) = true := by
+    rw [ht, ho]; decide
+  have f1 : startsWith L.termPrefix (markerLine 1) = false ∧ startsWith L.olp (markerLine 1) = false ∧
+      startsWith L.kin (markerLine 1) = true := by rw [ht, ho, hk]; decide
+  have f2 : startsWith L.termPrefix (markerLine 2) = false ∧ startsWith L.olp (markerLine 2) = false ∧
+      startsWith L.kin (markerLine 2) = false ∧ startsWith L.na (markerLine 2) = true := by rw [ht, ho, hk, hn]; decide
+  have fe : startsWith L.termPrefix erMarkerLine = false ∧ startsWith L.olp erMarkerLine = false ∧
+      startsWith L.kin erMarkerLine = false ∧ startsWith L.na erMarkerLine = false ∧ startsWith L.er erMarkerLine = true := by
+    rw [ht, ho, hk, hn, he]; decide
+  intro secs; induction secs with
+  | nil =>
+    intro fuel o _ hf
+    obtain ⟨g, rfl⟩ : ∃ g, fuel = g + 1 := ⟨fuel - 1, by simp at hf; omega⟩
+    simp [mainGo, t_term]
+  | cons s secs ih =>
+    intro fuel o hs hf
+    have hrest : ∀ x ∈ secs, SecOK L S n x := fun x hx => hs x (List.mem_cons_of_mem _ hx)
+    have hpos := sec_lines_pos S n s
+    simp only [List.flatMap_cons, List.length_append] at hf
+    obtain ⟨g, rfl⟩ : ∃ g, fuel = g + 1 := ⟨fuel - 1, by omega⟩
+    have hg : (secs.flatMap (Sec.lines S n)).length < g := by omega
+    have hok := hs s List.mem_cons_self
+    simp only [List.flatMap_cons, List.foldl_cons]
+    cases s with
+    | other l =>
+      obtain ⟨p1, p2, p3, p4, p5⟩ := hok
+      simp only [Sec.lines, List.cons_append, List.nil_append, mainGo, p1, p2, p3, p4, p5, Bool.false_eq_true, if_false, applySec]
+      exact ih g o hrest hg
+    | four pre es term =>
+      obtain ⟨q1, q2, q3⟩ := hok
+      have := loadFour_spec L S hL hw n pre term (secs.flatMap (Sec.lines S n) ++ termLine :: post) q1 q2 es q3
+      simp only [Sec.lines, List.cons_append, List.append_assoc, mainGo, fe.1, fe.2.1, fe.2.2.1, fe.2.2.2.1, fe.2.2.2.2,
+        Bool.false_eq_true, if_false, if_true, this, applySec]
+      exact ih g _ hrest hg
+    | two k f =>
+      obtain ⟨hk3, hfit⟩ := hok
+      have := loadTwo_spec L S n f (secs.flatMap (Sec.lines S n) ++ termLine :: post) hL.1 hL.2.1 hP hfit
+      match k, hk3 with
+      | 0, _ =>
+        simp only [Sec.lines, List.cons_append, List.append_assoc, mainGo, f0.1, f0.2, Bool.false_eq_true, if_false, if_true,
+          this, applySec]
+        exact ih g _ hrest hg
+      | 1, _ =>
+        simp only [Sec.lines, List.cons_append, List.append_assoc, mainGo, f1.1, f1.2.1, f1.2.2, Bool.false_eq_true, if_false,
+          if_true, this, applySec]
+        exact ih g _ hrest hg
+      | 2, _ =>
+        simp only [Sec.lines, List.cons_append, List.append_assoc, mainGo, f2.1, f2.2.1, f2.2.2.1, f2.2.2.2, Bool.false_eq_true,
+          if_false, if_true, this, applySec]
+        exact ih g _ hrest hg
+
+theorem findNBasis_spec (L : Layout) (hM : MarkersOK L) (n : Nat) (hn : (natToDec n).length ≤ 4) (rest : List Str) :
+    ∀ pre : List Str, (∀ l ∈ pre, startsWith L.nbasisPrefix l = false) →
+      findNBasis L (pre ++ nbasisLine n :: rest) = .ok (n, rest) := by
+  obtain ⟨hp, hs, _⟩ := hM
+  intro pre; induction pre with
+  | nil =>
+    intro _
+    have h1 : startsWith L.nbasisPrefix (nbasisLine n) = true := by
+      rw [hp]; simp [startsWith, nbasisLine, List.isPrefixOf]
+    have h2 : slice 12 18 (nbasisLine n) = rjust 4 (natToDec n) ++ [' ', ' '] := by
+      have e : nbasisLine n = [' ',' ',' ',' ','N','B','a','s','i','s',' ','='] ++ ((rjust 4 (natToDec n) ++ [' ', ' ']) ++
+          ['M','i','n','D','e','r',' ','=',' ','0',' ',' ','M','a','x','D','e','r',' ','=',' ','0','\n']) := by
+        simp [nbasisLine]
+      rw [e]
+      exact slice_mid 12 18 _ _ _ rfl (by simp [length_rjust 4 _ hn])
+    have h3 : pyInt (rjust 4 (natToDec n) ++ [' ', ' ']) = some (Int.ofNat n) := by
+      have := pyInt_intToDec (spaces (4 - (natToDec n).length)) [' ', ' '] (Int.ofNat n) (allWs_spaces _) (by decide)
+      simpa [rjust, intToDec] using this
+    simp only [List.nil_append, findNBasis, h1, if_true, hs, h2, h3]
+  | cons l pre ih =>
+    intro h
+    simp only [List.cons_append, findNBasis, h l List.mem_cons_self, Bool.false_eq_true, if_false]
+    exact ih (fun x hx => h x (List.mem_cons_of_mem _ hx))
+
+/-- C03 for Gaussian logs: a whole log in the published layout loads as the sections it prints -/
+theorem load_spec (L : Layout) (S : Spec) (hL : LayoutOK L) (hM : MarkersOK L) (hP : S.perBlock = 5) (hw : S.idxW = 3)
+    (pre : List Str) (n : Nat) (secs : List Sec) (post : List Str)
+    (hpre : ∀ l ∈ pre, startsWith L.nbasisPrefix l = false) (hn : (natToDec n).length ≤ 4)
+    (hs : ∀ s ∈ secs, SecOK L S n s) :
+    load L (specFile S pre n secs post) = .ok (secs.foldl (applySec S n) ⟨n, none, none, none, none⟩) := by
+  unfold load specFile
+  rw [findNBasis_spec L hM n hn _ pre hpre]
+  simp only
+  exact mainGo_spec L S hL hM hP hw n post secs _ _ hs (by rw [List.length_append, List.length_cons]; omega)
+
+end Iodata.FmtR.GLog
